@@ -71,6 +71,7 @@ SPEC = dict(
     harness_bin="sampler",
     ml_modules=["sampler_model"],
     n={"quick": 300, "thorough": 3000},
+    escalate=2,   # quick tier on a changed source: twice the cases, thorough-tier generator (default 4 is too slow here)
     search_n={"quick": 600, "thorough": 3000},
     nontrivial=nontrivial,
     histogram=histogram,
